@@ -35,15 +35,29 @@
 (*                  goroutine while the client is inside a call            *)
 (* ANYCLOSE       : Close() may race with calls (the session only closes   *)
 (*                  the manager after all torrents have stopped)           *)
+(* RECHECK        : MUTATION of the manager (never the code as it is): the *)
+(*                  grant of a queued request looks at the cancel channel  *)
+(*                  once more AFTER the notification was delivered and     *)
+(*                  does not charge a cancelled request                    *)
+(*                                                                         *)
+(* told = what the clients were TOLD they hold (Request returned true or a *)
+(* notification was received) and have not given back: a client releases   *)
+(* exactly that.  When the budget is exhausted a queued request is not a   *)
+(* candidate; the moment another holder releases, a queued request whose   *)
+(* cancel channel was closed meanwhile (peer gone) and whose owner is back *)
+(* in its select has BOTH manager cases ready (MRvNotify and MCancelCand,  *)
+(* state predicate GrantCancelRace); whichever is taken, what the owner    *)
+(* was told must be what the manager charged:                              *)
+(*   @obligation C17.rm.grant_vs_cancel   ToldIsHeld == told = holders     *)
 (***************************************************************************)
 EXTENDS LimitsRM
 
 CONSTANTS Reqs,      \* set of [id, key, n] : the requests the clients may issue
-          LIMIT, FIXED, PRECANCEL, ANYCANCEL, ANYCLOSE
+          LIMIT, FIXED, PRECANCEL, ANYCANCEL, ANYCLOSE, RECHECK
 
-VARIABLES pc, cur, mpc, mreq, cand, fresh, closed, closer
+VARIABLES pc, cur, mpc, mreq, cand, fresh, closed, closer, told
 
-pvars == <<pc, cur, mpc, mreq, cand, fresh, closed, closer>>
+pvars == <<pc, cur, mpc, mreq, cand, fresh, closed, closer, told>>
 vars  == <<avars, pvars>>
 
 NoReq  == [id |-> 0, key |-> 0, n |-> 0]
@@ -56,7 +70,7 @@ PInit ==
     /\ AInitWith([limit |-> LIMIT])
     /\ pc = [c \in Client |-> "loop"] /\ cur = [c \in Client |-> NoReq]
     /\ mpc = "loop" /\ mreq = NoReq /\ cand = NoReq
-    /\ fresh = Reqs /\ closed = FALSE /\ closer = "idle"
+    /\ fresh = Reqs /\ closed = FALSE /\ closer = "idle" /\ told = {}
 
 -----------------------------------------------------------------------------
 (* client steps                                                            *)
@@ -64,12 +78,12 @@ CStartReq(c, r) ==
     /\ pc[c] = "loop" /\ r \in fresh /\ r.key = c
     /\ pc' = [pc EXCEPT ![c] = "reqSend"] /\ cur' = [cur EXCEPT ![c] = r]
     /\ fresh' = fresh \ {r}
-    /\ UNCHANGED <<avars, mpc, mreq, cand, closed, closer>>
+    /\ UNCHANGED <<avars, mpc, mreq, cand, closed, closer, told>>
 
 CStartRel(c, r) ==
-    /\ pc[c] = "loop" /\ r \in holders /\ r.key = c
+    /\ pc[c] = "loop" /\ r \in told /\ r.key = c          \* a client gives back what it was told it holds
     /\ pc' = [pc EXCEPT ![c] = "relSend"] /\ cur' = [cur EXCEPT ![c] = r]
-    /\ UNCHANGED <<avars, mpc, mreq, cand, fresh, closed, closer>>
+    /\ UNCHANGED <<avars, mpc, mreq, cand, fresh, closed, closer, told>>
 
 CCancel(c, r) ==
     /\ r \in Reqs /\ r.key = c /\ r.id \notin canc
@@ -81,13 +95,13 @@ CCancel(c, r) ==
 CStop(c) ==
     /\ pc[c] = "loop"
     /\ pc' = [pc EXCEPT ![c] = "stopped"]
-    /\ UNCHANGED <<avars, cur, mpc, mreq, cand, fresh, closed, closer>>
+    /\ UNCHANGED <<avars, cur, mpc, mreq, cand, fresh, closed, closer, told>>
 
 \* any blocked call returns through <-m.closeC
 CClosedReturn(c) ==
     /\ closed /\ pc[c] \in {"reqSend", "reqWait", "relSend"}
     /\ pc' = [pc EXCEPT ![c] = "loop"]
-    /\ UNCHANGED <<avars, cur, mpc, mreq, cand, fresh, closed, closer>>
+    /\ UNCHANGED <<avars, cur, mpc, mreq, cand, fresh, closed, closer, told>>
 
 -----------------------------------------------------------------------------
 (* manager steps                                                           *)
@@ -97,13 +111,14 @@ MRvRequest(c) ==                          \* case r := <-m.requestC
     /\ mpc = "loop" /\ pc[c] = "reqSend"
     /\ mpc' = "handle" /\ mreq' = cur[c]
     /\ pc' = [pc EXCEPT ![c] = "reqWait"]
-    /\ UNCHANGED <<avars, cur, cand, fresh, closed, closer>>
+    /\ UNCHANGED <<avars, cur, cand, fresh, closed, closer, told>>
 
 MRvDone ==                                \* case r.doneC <- acquired
     /\ mpc = "handle" /\ pc[mreq.key] = "reqWait" /\ cur[mreq.key] = mreq
     /\ LET cancelled == FIXED /\ mreq.id \in canc
            acq == ~cancelled /\ avail >= mreq.n
-       IN IF cancelled THEN ARefuse ELSE AReq(mreq, acq)
+       IN /\ IF cancelled THEN ARefuse ELSE AReq(mreq, acq)
+          /\ told' = IF acq THEN told \cup {mreq} ELSE told
     /\ pc' = [pc EXCEPT ![mreq.key] = "loop"]
     /\ mpc' = "loop" /\ mreq' = NoReq /\ Repick
     /\ UNCHANGED <<cur, fresh, closed, closer>>
@@ -111,25 +126,30 @@ MRvDone ==                                \* case r.doneC <- acquired
 MHandleCancel ==                          \* case <-r.cancelC   (code as it is)
     /\ ~FIXED
     /\ mpc = "handle" /\ mreq.id \in canc
-    /\ UNCHANGED <<avars, pc, cur, fresh, closed, closer>>
+    /\ UNCHANGED <<avars, pc, cur, fresh, closed, closer, told>>
     /\ mpc' = "loop" /\ mreq' = NoReq /\ Repick
 
 MHandleClosed ==                          \* case <-m.closeC    (repaired code)
     /\ FIXED
     /\ mpc = "handle" /\ closed
-    /\ UNCHANGED <<avars, pc, cur, fresh, closed, closer>>
+    /\ UNCHANGED <<avars, pc, cur, fresh, closed, closer, told>>
     /\ mpc' = "loop" /\ mreq' = NoReq /\ Repick
 
 MRvRelease(c) ==                          \* case n := <-m.releaseC
     /\ mpc = "loop" /\ pc[c] = "relSend"
-    /\ ARelease(cur[c])
+    /\ IF cur[c] \in holders THEN ARelease(cur[c])
+       ELSE /\ avail' = avail + cur[c].n                  \* (a reservation the manager never charged)
+            /\ UNCHANGED <<rcfg, holders, waiters, canc>>
+    /\ told' = told \ {cur[c]}
     /\ pc' = [pc EXCEPT ![c] = "loop"]
     /\ Repick
     /\ UNCHANGED <<cur, mpc, mreq, fresh, closed, closer>>
 
 MRvNotify ==                              \* case req.notifyC <- req.data
     /\ mpc = "loop" /\ cand # NoReq /\ pc[cand.key] = "loop"
-    /\ ANotify(cand)
+    /\ IF RECHECK /\ cand.id \in canc THEN ADrop(cand)   \* mutation: delivered, then treated like a refused request
+       ELSE ANotify(cand)                                \* the code: a delivered notification is a charged reservation,
+    /\ told' = told \cup {cand}                           \*           also when cand.id \in canc (select picked this case)
     /\ Repick
     /\ UNCHANGED <<pc, cur, mpc, mreq, fresh, closed, closer>>
 
@@ -137,29 +157,29 @@ MCancelCand ==                            \* case <-req.cancelC
     /\ mpc = "loop" /\ cand # NoReq /\ cand.id \in canc
     /\ ADrop(cand)
     /\ Repick
-    /\ UNCHANGED <<pc, cur, mpc, mreq, fresh, closed, closer>>
+    /\ UNCHANGED <<pc, cur, mpc, mreq, fresh, closed, closer, told>>
 
 MRvStats ==                               \* case ch := <-m.statsC : only re-draws cand
     /\ mpc = "loop" /\ ~closed
-    /\ UNCHANGED <<avars, pc, cur, mpc, mreq, fresh, closed, closer>>
+    /\ UNCHANGED <<avars, pc, cur, mpc, mreq, fresh, closed, closer, told>>
     /\ Repick
 
 MDone ==                                  \* case <-m.closeC
     /\ mpc = "loop" /\ closed
     /\ mpc' = "done"
-    /\ UNCHANGED <<avars, pc, cur, mreq, cand, fresh, closed, closer>>
+    /\ UNCHANGED <<avars, pc, cur, mreq, cand, fresh, closed, closer, told>>
 
 -----------------------------------------------------------------------------
 CloseCall ==
     /\ closer = "idle"
     /\ ANYCLOSE \/ \A c \in Client : pc[c] = "stopped"
     /\ closed' = TRUE /\ closer' = "wait"
-    /\ UNCHANGED <<avars, pc, cur, mpc, mreq, cand, fresh>>
+    /\ UNCHANGED <<avars, pc, cur, mpc, mreq, cand, fresh, told>>
 
 CloseReturn ==
     /\ closer = "wait" /\ mpc = "done"
     /\ closer' = "returned"
-    /\ UNCHANGED <<avars, pc, cur, mpc, mreq, cand, fresh, closed>>
+    /\ UNCHANGED <<avars, pc, cur, mpc, mreq, cand, fresh, closed, told>>
 
 Terminated ==
     /\ closer = "returned" /\ \A c \in Client : pc[c] = "stopped"
@@ -189,7 +209,16 @@ NoStuckManager ==
                       \/ (FIXED /\ closed)
 CandOK == cand # NoReq => (cand \in waiters /\ cand.n <= avail)
 
-PInv == AInv /\ NoOrphan /\ NoStuckManager /\ CandOK
+\* @obligation C17.rm.grant_vs_cancel  what the clients were told they hold is what the manager charged - in particular
+\* when a notification and the close of the cancel channel of the same queued request were ready together
+ToldIsHeld == told = holders
+\* both cases of the manager's select are ready for the drawn request (reachability witness, MC_LimitsRM_race.cfg)
+GrantCancelRace == mpc = "loop" /\ cand # NoReq /\ cand.id \in canc /\ pc[cand.key] = "loop"
+NoGrantCancelRace == ~GrantCancelRace
+\* ... and the notification case was taken for it at least once (witness of the second kind)
+NoCancelledHolder == ~ \E r \in holders : r.id \in canc /\ r \in told /\ pc[r.key] = "loop" /\ cur[r.key] # r
+
+PInv == AInv /\ NoOrphan /\ NoStuckManager /\ CandOK /\ ToldIsHeld
 
 \* design observation (not an obligation of C17): a waiter that fits and whose owner is listening is
 \* not offered the resource because randomRequest() drew a request that does not fit and gave up
